@@ -26,10 +26,10 @@ UNTRACKED_ROUTES = [
     "copyto", "ufunc_out", "ufunc_at", "flat_assign", "fill_diagonal", "clip_out", "cumsum_out",
     "real_assign", "memoryview", "frombuffer", "nditer", "place", "putmask", "maximum_out",
 ]
-DERIVES_VIEW = ["slice_rows", "slice_step", "col", "row", "T", "reshape_flat", "ravel", "view_tracked", "view_ndarray", "asarray"]
-DERIVES_COPY = ["fancy", "copy", "astype", "add0"]
+DERIVES_VIEW = ["slice_rows", "slice_step", "col", "row", "T", "reshape_flat", "ravel", "view_tracked", "view_ndarray", "asarray", "iter_row"]
+DERIVES_COPY = ["fancy", "copy", "astype", "add0", "deepcopy", "pickle"]
 # derive ops after which __array_finalize__ is documented to mark the *source* dirty
-MARKS_SOURCE = {"slice_rows", "slice_step", "col", "row", "T", "reshape_flat", "ravel", "view_tracked", "fancy", "copy", "astype"}
+MARKS_SOURCE = {"slice_rows", "slice_step", "col", "row", "T", "reshape_flat", "ravel", "view_tracked", "fancy", "copy", "astype", "iter_row"}
 READONLY = ["sum", "compare", "tobytes", "np_sort", "min", "tolist", "len", "dot", "mean", "argsort", "repr"]
 
 OP_KINDS = ["derive_view", "derive_copy", "write_tracked", "write_untracked", "hash", "hash_all", "container_hash", "readonly", "setflags", "reassign"]
@@ -67,6 +67,11 @@ def _derive(kind, x, p, tracked_cls=None):
         if nd != 2 or len(x) == 0:
             raise Inapplicable()
         return x[p.get("i", 0) % len(x)]
+    if kind == "iter_row":
+        # a row handed out by the array's own iteration (for row in a: ...)
+        if nd != 2 or len(x) == 0:
+            raise Inapplicable()
+        return list(iter(x))[p.get("i", 0) % len(x)]
     if kind == "T":
         if nd != 2:
             raise Inapplicable()
@@ -88,6 +93,14 @@ def _derive(kind, x, p, tracked_cls=None):
         return x[[i % len(x) for i in p.get("idx", [0, 1])]]
     if kind == "copy":
         return x.copy()
+    if kind == "deepcopy":
+        import copy as _copy
+
+        return _copy.deepcopy(x)
+    if kind == "pickle":
+        import pickle as _pickle
+
+        return _pickle.loads(_pickle.dumps(x))
     if kind == "astype":
         return x.astype(x.dtype)
     if kind == "add0":
@@ -620,6 +633,10 @@ class C02(World):
             if np.shares_memory(new, h.arr) != np.shares_memory(mir, h.mir):
                 raise HarnessError(f"derive {kind}: view/copy classification differs between array and mirror")
             tracked = isinstance(new, TA)
+            if h.tracked and not tracked and kind in ("slice_rows", "slice_step", "col", "row", "T", "reshape_flat", "ravel", "iter_row") and np.shares_memory(new, h.arr):
+                # what the array itself hands out when it is sliced, indexed or iterated is a view OF IT: it has to know about
+                # writes through it, which it only can if the view is tracked (an explicit .view(np.ndarray) is another matter)
+                ctx.fail("hash", "own-view-not-tracked", f"{kind} of a tracked array returned a plain {type(new).__name__}: writes through it cannot reach the hash")
             hs.append(H(new, mir, tracked, hi, kind))
             if h.tracked and tracked and kind in MARKS_SOURCE:
                 h.m_dirty = True
